@@ -233,7 +233,7 @@ class sptensor:
         assert callable(function_handle), "function_handle must be callable"
 
         shape = parse_shape(shape)
-        if (nonzeros < 0) or (nonzeros >= prod(shape)):
+        if (nonzeros < 0) or (nonzeros > prod(shape)):
             assert False, (
                 "Requested number of nonzeros must be positive "
                 "and less than the total size"
@@ -245,7 +245,7 @@ class sptensor:
         nonzeros = int(nonzeros)
 
         # Keep iterating until we find enough unique nonzeros or we give up
-        subs = np.array([])
+        subs = np.empty((0, len(shape)), dtype=int)
         cnt = 0
         while (len(subs) < nonzeros) and (cnt < 10):
             subs = (
@@ -3654,7 +3654,9 @@ def sptenrand(
     shape = parse_shape(shape)
     if isinstance(density, float):
         # TODO this should be an int
-        valid_nonzeros = float(prod(shape) * density)
+        # from_function reads a value below one as a density (rounding the count
+        # up); a density of one asks for every entry
+        valid_nonzeros = float(density) if density < 1 else float(prod(shape))
     elif isinstance(nonzeros, (int, float)):
         valid_nonzeros = nonzeros
     else:  # pragma: no cover
